@@ -7,8 +7,8 @@ CONSTANT Opt <- MCOpt
 CONSTANT Mdl <- MCMdl
 CONSTANT InPlace <- MCInPlace
 CONSTANT MaxLen = 3
-CONSTANT Policy = "as_is"
+CONSTANT Policy = "clear_at_entry"
 CONSTANT SeedsRng = TRUE
-CONSTANT ReaderCopies = TRUE
-INVARIANT NoFailureFromHistory
+CONSTANT ReaderCopies = FALSE
+INVARIANT CallerStateUntouched
 CHECK_DEADLOCK FALSE
